@@ -255,53 +255,155 @@ Proof.
     apply granted_by_spec. tauto.
 Qed.
 
-Lemma fold_kill_spec : forall obj p (casc : list grant -> string -> option (list grant)),
-  (forall G x G', casc G x = Some G' -> cascade_post obj p G x G') ->
-  forall ds G G', fold_opt (kill_then casc obj p false) ds G = Some G' ->
-  exists KP, G' = prune obj KP G /\ (forall d, In d ds -> In (d, p) KP) /\ closed obj KP G' /\
-             forall k q, In (k, q) KP -> q = p /\ (In k ds \/ exists d, In d ds /\ reach obj G p d k).
+(** ** the walk with its visited set *)
+Lemma prune_ext : forall obj A B G,
+  (forall k q, in_pairs A k q = in_pairs B k q) -> prune obj A G = prune obj B G.
 Proof.
-  intros obj p casc IHc. induction ds as [|d ds IH]; intros G G' H.
-  - cbn in H. inversion H; subst. exists []. rewrite prune_nil. repeat split; try (intros; contradiction).
-    intros g _ _ F. exact F.
-  - cbn in H. destruct (kill_then casc obj p false G d) as [G1|] eqn:E1; [|discriminate].
-    unfold kill_then in E1. rewrite remove_full_prune in E1.
-    apply IHc in E1 as [KP1 [EG1 [C1 R1]]].
-    apply IH in H as [KP2 [EG2 [I2 [C2 R2]]]].
-    assert (Sub1 : forall g, In g G1 -> In g G).
-    { intros g Hg. subst G1. apply prune_incl in Hg. apply prune_incl in Hg. exact Hg. }
-    assert (Sub2 : forall g, In g G' -> In g G1).
-    { intros g Hg. subst G'. apply prune_incl in Hg. exact Hg. }
-    exists (((d, p) :: KP1) ++ KP2)%list. split; [|split; [|split]].
-    + subst G' G1. rewrite !prune_prune. reflexivity.
-    + intros d' [Hd|Hd]; [subst; left; reflexivity|]. apply in_or_app. right. apply I2. exact Hd.
-    + apply closed_app; [|exact C2]. eapply closed_mono; [exact Sub2 | exact C1].
-    + intros k q H. apply in_app_or in H as [[H|H]|H].
-      * inversion H; subst. split; [reflexivity|]. left. left. reflexivity.
-      * apply R1 in H as [Hq H]. split; [exact Hq|]. right. exists d. split; [left; reflexivity|].
-        eapply reach_mono; [|exact H]. intros g Hg. apply prune_incl in Hg. exact Hg.
-      * apply R2 in H as [Hq [H|[d' [Hd' H]]]]; (split; [exact Hq|]); [left; right; exact H|].
-        right. exists d'. split; [right; exact Hd'|]. eapply reach_mono; [exact Sub1 | exact H].
+  intros obj A B G H. unfold prune. apply filter_ext. intro g. unfold doomed. rewrite H. reflexivity.
 Qed.
 
-Lemma cascade_spec : forall obj p fuel G x G',
-  revoke_cascade fuel obj p false G x = Some G' -> cascade_post obj p G x G'.
+Lemma prune_idem : forall obj A G, prune obj A (prune obj A G) = prune obj A G.
 Proof.
-  intros obj p. induction fuel as [|f IH]; intros G x G' H; [discriminate|].
-  cbn in H. apply (fold_kill_spec obj p _ IH) in H as [KP [EG [I [C R]]]].
-  exists KP. split; [exact EG|]. split.
-  - intros g Hg Ho [Hin|Hin]; [|eapply C; eassumption].
-    assert (Hx : g_grantor g = x) by (injection Hin; congruence).
-    assert (Hp : g_priv g = p) by (injection Hin; congruence).
-    assert (HgG : In g G) by (subst G'; apply prune_incl in Hg; exact Hg).
-    assert (Hd : In (g_grantee g, p) KP).
-    { apply I. apply deps_spec. exists g. repeat split; assumption. }
-    subst G'. apply prune_In in Hg as [_ Hg]. unfold doomed in Hg.
-    rewrite Ho, String.eqb_refl in Hg. cbn in Hg. rewrite Hp in Hg.
-    apply in_pairs_In in Hd. congruence.
-  - intros k q Hk. apply R in Hk as [Hq [Hk|[d [Hd Hk]]]]; (split; [exact Hq|]).
-    + apply reach_one. apply deps_spec. exact Hk.
-    + eapply reach_cons; [apply deps_spec; exact Hd | exact Hk].
+  intros. rewrite prune_prune. apply prune_ext. intros k q. rewrite in_pairs_app. apply orb_diag.
+Qed.
+
+(** visited names paired with the privilege being revoked *)
+Definition vp (p : privilege) (V : list string) : list (string * privilege) := map (fun v => (v, p)) V.
+
+Lemma in_vp : forall p V k q, In (k, q) (vp p V) <-> q = p /\ In k V.
+Proof.
+  intros. unfold vp. rewrite in_map_iff. split.
+  - intros [v [E Hv]]. inversion E; subst. tauto.
+  - intros [E Hk]. subst. exists k. tauto.
+Qed.
+
+Lemma vp_app : forall p A B, vp p (A ++ B) = (vp p A ++ vp p B)%list.
+Proof. intros. unfold vp. apply map_app. Qed.
+
+(** every grant of [p] on [obj] in the reference table [G0] made by a FINISHED grantor leads into the visited set *)
+Definition closedF (obj : string) (p : privilege) (G0 : list grant) (F V : list string) : Prop :=
+  forall g, In g G0 -> g_object g = obj -> g_priv g = p -> In (g_grantor g) F -> In (g_grantee g) V.
+
+Lemma closedF_mono : forall obj p G0 F F' V V',
+  (forall x, In x F' -> In x F) -> (forall x, In x V -> In x V') ->
+  closedF obj p G0 F V -> closedF obj p G0 F' V'.
+Proof. intros obj p G0 F F' V V' HF HV H g Hg Ho Hp Hin. apply HV. apply (H g Hg Ho Hp). apply HF. exact Hin. Qed.
+
+Definition walk_post (obj : string) (p : privilege) (G0 : list grant) (F V : list string) (x : string)
+           (finished_x : bool) (st : cstate) : Prop :=
+  exists new, snd st = (new ++ V)%list /\ fst st = prune obj (vp p (snd st)) G0 /\
+              closedF obj p G0 ((if finished_x then [x] else []) ++ new ++ F) (snd st) /\
+              forall v, In v new -> reach obj G0 p x v.
+
+Lemma in_pairs_same : forall A B k q, (forall x, In x A <-> In x B) -> in_pairs A k q = in_pairs B k q.
+Proof.
+  intros A B k q H. destruct (in_pairs A k q) eqn:EA, (in_pairs B k q) eqn:EB; try reflexivity.
+  - apply in_pairs_In, H, in_pairs_In in EA. congruence.
+  - apply in_pairs_In, H, in_pairs_In in EB. congruence.
+Qed.
+
+Lemma remove_visit_prune : forall obj p G0 V d,
+  remove_grants obj d p false (prune obj (vp p V) G0) = prune obj (vp p (d :: V)) G0.
+Proof.
+  intros. rewrite remove_full_prune, prune_prune. apply prune_ext. intros k q. apply in_pairs_same.
+  intro x. cbn [vp map]. fold (vp p V). rewrite in_app_iff. cbn [In]. tauto.
+Qed.
+
+Lemma fold_visit_spec : forall obj p G0 x (casc : list grant -> list string -> string -> option cstate),
+  (forall G V F y st, casc G V y = Some st -> G = prune obj (vp p V) G0 -> In y V -> closedF obj p G0 F V ->
+                      walk_post obj p G0 F V y true st) ->
+  forall ds st0 F st,
+  fold_opt (visit_then casc obj p false) ds st0 = Some st ->
+  fst st0 = prune obj (vp p (snd st0)) G0 -> closedF obj p G0 F (snd st0) ->
+  (forall d, In d ds -> edge obj G0 p x d) ->
+  walk_post obj p G0 F (snd st0) x false st /\ (forall d, In d ds -> In d (snd st)).
+Proof.
+  intros obj p G0 x casc IHc. induction ds as [|d ds IH]; intros [G V] F st H HG HF Hd.
+  - cbn in H. inversion H; subst. split; [|intros d []]. exists []. cbn. repeat split; try assumption. intros v [].
+  - cbn [fold_opt] in H. cbn [fst snd] in *. unfold visit_then in H at 1. cbn [fst snd] in H.
+    destruct (mem d V) eqn:Em.
+    + destruct (IH (G, V) F st H HG HF (fun d' Hd' => Hd d' (or_intror Hd'))) as [HP HI].
+      split; [exact HP|]. intros d' [E|Hd']; [|apply HI; exact Hd'].
+      subst d'. destruct HP as [new [EV _]]. cbn [snd] in EV. rewrite EV. apply in_or_app. right. apply mem_In. exact Em.
+    + destruct (casc (remove_grants obj d p false G) (d :: V) d) as [st1|] eqn:E1; [|discriminate].
+      assert (Hstep : walk_post obj p G0 F (d :: V) d true st1).
+      { apply (IHc _ _ F _ _ E1).
+        - rewrite HG. apply remove_visit_prune.
+        - left. reflexivity.
+        - eapply closedF_mono; [| |exact HF]; [tauto | intros z Hz; right; exact Hz]. }
+      destruct Hstep as [new1 [EV1 [EG1 [C1 R1]]]].
+      destruct (IH st1 (d :: new1 ++ F)%list st H EG1) as [[new2 [EV2 [EG2 [C2 R2]]]] HI].
+      * exact C1.
+      * intros d' Hd'. apply Hd. right. exact Hd'.
+      * split.
+        -- exists (new2 ++ new1 ++ [d])%list. cbn [snd]. split; [|split; [|split]].
+           ++ rewrite EV2, EV1. rewrite <- !app_assoc. reflexivity.
+           ++ exact EG2.
+           ++ eapply closedF_mono; [| |exact C2]; [|tauto]. cbn [app]. intros z Hz.
+              apply in_app_or in Hz as [Hz|Hz].
+              ** apply in_app_or in Hz as [Hz|Hz]; [apply in_or_app; left; exact Hz|].
+                 apply in_app_or in Hz as [Hz|[Hz|[]]].
+                 --- apply in_or_app. right. right. apply in_or_app. left. exact Hz.
+                 --- subst z. apply in_or_app. right. left. reflexivity.
+              ** apply in_or_app. right. right. apply in_or_app. right. exact Hz.
+           ++ intros v Hv. apply in_app_or in Hv as [Hv|Hv]; [apply R2; exact Hv|].
+              apply in_app_or in Hv as [Hv|[Hv|[]]].
+              ** eapply reach_cons; [apply Hd; left; reflexivity | apply R1; exact Hv].
+              ** subst v. apply reach_one. apply Hd. left. reflexivity.
+        -- intros d' [E|Hd']; [|apply HI; exact Hd'].
+           subst d'. rewrite EV2, EV1. apply in_or_app. right. apply in_or_app. right. left. reflexivity.
+Qed.
+
+Lemma cascade_walk_spec : forall obj p G0 fuel G V F x st,
+  revoke_cascade fuel obj p false G V x = Some st ->
+  G = prune obj (vp p V) G0 -> In x V -> closedF obj p G0 F V ->
+  walk_post obj p G0 F V x true st.
+Proof.
+  intros obj p G0. induction fuel as [|f IH]; intros G V F x st H HG Hx HF; [discriminate|].
+  cbn [revoke_cascade] in H.
+  assert (Hdeps : forall d, In d (map g_grantee (filter (granted_by obj x p) G)) -> edge obj G0 p x d).
+  { intros d Hd. apply deps_spec in Hd. eapply edge_mono; [|exact Hd]. intros g Hg. subst G. apply prune_incl in Hg. exact Hg. }
+  destruct (fold_visit_spec obj p G0 x _ IH _ (G, V) F st H HG HF Hdeps) as [[new [EV [EG [C R]]]] HI].
+  cbn [snd] in *. exists new. split; [exact EV|]. split; [exact EG|]. split; [|exact R].
+  cbn [app]. intros g Hg Ho Hp [Hgx|Hin]; [|apply (C g Hg Ho Hp Hin)].
+  (* an edge out of x: still in the table at entry (then it is a dependent) or already removed (then its grantee was visited) *)
+  destruct (doomed obj (vp p V) g) eqn:D.
+  - unfold doomed in D. apply andb_true_iff in D as [_ D]. apply in_pairs_In, in_vp in D as [_ D].
+    rewrite EV. apply in_or_app. right. exact D.
+  - apply HI. apply deps_spec. exists g. split; [subst G; apply prune_In; split; assumption|].
+    split; [exact Ho|]. split; [exact Hp|]. split; [symmetry; exact Hgx | reflexivity].
+Qed.
+
+(** the statement-level call: [remove_grants] for the named grantee, visited = {grantee}, then the walk *)
+Lemma cascade_spec : forall obj p fuel G ge st,
+  revoke_cascade fuel obj p false (prune obj [(ge, p)] G) [ge] ge = Some st ->
+  cascade_post obj p (prune obj [(ge, p)] G) ge (fst st).
+Proof.
+  intros obj p fuel G ge st H. set (G0 := prune obj [(ge, p)] G) in *.
+  assert (Hid : prune obj (vp p [ge]) G0 = G0) by (unfold G0; apply prune_idem).
+  destruct (cascade_walk_spec obj p G0 fuel G0 [ge] [] ge st H (eq_sym Hid)) as [new [EV [EG [C R]]]].
+  - left. reflexivity.
+  - intros g _ _ _ [].
+  - exists (vp p new). split; [|split].
+    + rewrite EG, EV, vp_app. rewrite <- Hid at 2. rewrite prune_prune. apply prune_ext. intros k q.
+      apply in_pairs_same. intro y. rewrite !in_app_iff. tauto.
+    + intros g Hg Ho Hin.
+      assert (Hp : g_priv g = p /\ In (g_grantor g) (snd st)).
+      { destruct Hin as [E|Hin].
+        - assert (E1 : g_grantor g = ge) by (injection E; congruence).
+          assert (E2 : g_priv g = p) by (injection E; congruence).
+          split; [exact E2|]. rewrite EV, E1. apply in_or_app. right. left. reflexivity.
+        - apply in_vp in Hin as [Hq Hin]. split; [exact Hq|]. rewrite EV. apply in_or_app. left. exact Hin. }
+      destruct Hp as [Hp Hgr].
+      assert (HgG0 : In g G0) by (rewrite EG in Hg; apply prune_incl in Hg; exact Hg).
+      assert (Hge : In (g_grantee g) (snd st)).
+      { apply (C g HgG0 Ho Hp). rewrite app_nil_r. cbn [app]. rewrite EV in Hgr.
+        apply in_app_or in Hgr as [Hgr|[Hgr|[]]]; [right; exact Hgr | left; exact Hgr]. }
+      rewrite EG in Hg. apply prune_In in Hg as [_ Hd]. unfold doomed in Hd.
+      rewrite Ho, String.eqb_refl in Hd. cbn in Hd.
+      assert (Hin' : In (g_grantee g, g_priv g) (vp p (snd st))) by (apply in_vp; tauto).
+      apply in_pairs_In in Hin'. congruence.
+    + intros k q Hk. apply in_vp in Hk as [Hq Hk]. split; [exact Hq | apply R; exact Hk].
 Qed.
 
 (** every pair reachable from a visited pair has been visited *)
@@ -352,10 +454,10 @@ Proof.
   intros fuel obj. induction prs as [|[ge p] prs IH]; intros G G' H.
   - cbn in H. inversion H; subst. exists []. rewrite prune_nil. repeat split; try (intros; contradiction).
     intros g _ _ F. exact F.
-  - cbn [fold_opt revoke_one] in H.
-    destruct (kill_then (revoke_cascade fuel obj p false) obj p false G ge) as [G1|] eqn:E1; [|discriminate].
-    unfold kill_then in E1. rewrite remove_full_prune in E1.
-    apply cascade_spec in E1 as [KP1 [EG1 [C1 R1]]].
+  - cbn [fold_opt revoke_one] in H. rewrite remove_full_prune in H.
+    destruct (revoke_cascade fuel obj p false (prune obj [(ge, p)] G) [ge] ge) as [st1|] eqn:E1; [|discriminate].
+    remember (fst st1) as G1 eqn:EG1'. apply cascade_spec in E1. rewrite <- EG1' in E1. clear EG1' st1.
+    destruct E1 as [KP1 [EG1 [C1 R1]]].
     apply IH in H as [KP2 [EG2 [I2 [C2 R2]]]].
     assert (Sub1 : forall g, In g G1 -> In g G).
     { intros g Hg. subst G1. apply prune_incl in Hg. apply prune_incl in Hg. exact Hg. }
@@ -422,21 +524,23 @@ Proof.
 Qed.
 
 (** ** REVOKE GRANT OPTION FOR never changes who holds what (when it returns at all) *)
-Lemma fold_kill_option_ekeys : forall obj p (casc : list grant -> string -> option (list grant)),
-  (forall G x G', casc G x = Some G' -> map ekey G' = map ekey G) ->
-  forall ds G G', fold_opt (kill_then casc obj p true) ds G = Some G' -> map ekey G' = map ekey G.
+Lemma fold_visit_option_ekeys : forall obj p (casc : list grant -> list string -> string -> option cstate),
+  (forall G V x st, casc G V x = Some st -> map ekey (fst st) = map ekey G) ->
+  forall ds st0 st, fold_opt (visit_then casc obj p true) ds st0 = Some st -> map ekey (fst st) = map ekey (fst st0).
 Proof.
-  intros obj p casc IHc. induction ds as [|d ds IH]; intros G G' H.
+  intros obj p casc IHc. induction ds as [|d ds IH]; intros st0 st H.
   - cbn in H. inversion H. reflexivity.
-  - cbn [fold_opt] in H. destruct (kill_then casc obj p true G d) as [G1|] eqn:E1; [|discriminate].
-    unfold kill_then in E1. apply IHc in E1. apply IH in H. rewrite H, E1. apply remove_option_ekeys.
+  - cbn [fold_opt] in H. unfold visit_then in H at 1. destruct (mem d (snd st0)).
+    + apply IH. exact H.
+    + destruct (casc (remove_grants obj d p true (fst st0)) (d :: snd st0) d) as [st1|] eqn:E1; [|discriminate].
+      apply IHc in E1. apply IH in H. rewrite H, E1. apply remove_option_ekeys.
 Qed.
 
-Lemma cascade_option_ekeys : forall obj p fuel G x G',
-  revoke_cascade fuel obj p true G x = Some G' -> map ekey G' = map ekey G.
+Lemma cascade_option_ekeys : forall obj p fuel G V x st,
+  revoke_cascade fuel obj p true G V x = Some st -> map ekey (fst st) = map ekey G.
 Proof.
-  intros obj p. induction fuel as [|f IH]; intros G x G' H; [discriminate|].
-  cbn [revoke_cascade] in H. eapply fold_kill_option_ekeys; [exact IH | exact H].
+  intros obj p. induction fuel as [|f IH]; intros G V x st H; [discriminate|].
+  cbn [revoke_cascade] in H. apply (fold_visit_option_ekeys obj p _ IH) in H. exact H.
 Qed.
 
 Lemma revoke_fold_option_ekeys : forall fuel obj casc prs G G',
@@ -446,8 +550,8 @@ Proof.
   - cbn in H. inversion H. reflexivity.
   - destruct casc; cbn [fold_opt revoke_one] in H.
     + apply IH in H. rewrite H. apply remove_option_ekeys.
-    + destruct (kill_then (revoke_cascade fuel obj p true) obj p true G ge) as [G1|] eqn:E1; [|discriminate].
-      unfold kill_then in E1. apply cascade_option_ekeys in E1. apply IH in H. rewrite H, E1. apply remove_option_ekeys.
+    + destruct (revoke_cascade fuel obj p true (remove_grants obj ge p true G) [ge] ge) as [st1|] eqn:E1; [|discriminate].
+      apply cascade_option_ekeys in E1. apply IH in H. rewrite H, E1. apply remove_option_ekeys.
     + apply IH in H. rewrite H. apply remove_option_ekeys.
 Qed.
 
@@ -746,97 +850,108 @@ Theorem self_grant_escalates :
   check_privilege s' "T" (PSelect None) = true.
 Proof. vm_compute. repeat split. Qed.
 
-(** * CASCADE terminates for a plain REVOKE *)
-Lemma filter_length_lt : forall (A : Type) (f : A -> bool) l x, In x l -> f x = false -> List.length (filter f l) < List.length l.
+(** * CASCADE always terminates (both modes): every recursive call marks a new grantee *)
+Definition grantees_in (G : list grant) (N : list string) : Prop := forall g, In g G -> In (g_grantee g) N.
+
+Lemma remove_grantees_in : forall obj d p gof G N, grantees_in G N -> grantees_in (remove_grants obj d p gof G) N.
 Proof.
-  intros A f l x. induction l as [|y l IH]; intros Hin Hf; [contradiction|].
-  cbn. destruct Hin as [E|Hin].
-  - subst y. rewrite Hf. assert (L : List.length (filter f l) <= List.length l).
-    { clear. induction l as [|z l IH]; cbn; [lia|]. destruct (f z); cbn; lia. }
-    lia.
-  - specialize (IH Hin Hf). destruct (f y); cbn; lia.
+  intros obj d p gof G N H g Hg. unfold remove_grants in Hg. destruct gof.
+  - apply in_map_iff in Hg as [g0 [E Hg0]]. destruct (matches obj d p g0); subst g; [cbn|]; apply H; exact Hg0.
+  - apply filter_In in Hg as [Hg _]. apply H. exact Hg.
 Qed.
 
-Lemma remove_full_length : forall obj d p G, List.length (remove_grants obj d p false G) <= List.length G.
-Proof. intros. rewrite remove_full_prune. apply prune_length. Qed.
+Definition term_post (N base : list string) (added : list string) (o : option cstate) : Prop :=
+  exists G' added', o = Some (G', (added' ++ base)%list) /\ grantees_in G' N /\ NoDup added' /\ incl added' N /\
+                    List.length added <= List.length added'.
 
-Lemma fold_kill_terminates : forall obj p f (casc : list grant -> string -> option (list grant)),
-  (forall G x, List.length G < f -> exists G', casc G x = Some G' /\ List.length G' <= List.length G) ->
-  forall ds G, List.length G < f ->
-  exists G', fold_opt (kill_then casc obj p false) ds G = Some G' /\ List.length G' <= List.length G.
+Lemma fold_visit_terminates : forall obj p gof N base f (casc : list grant -> list string -> string -> option cstate),
+  (forall G added x, grantees_in G N -> NoDup added -> incl added N -> List.length N < List.length added + f ->
+                     term_post N base added (casc G (added ++ base)%list x)) ->
+  forall ds G added, (forall d, In d ds -> In d N) -> grantees_in G N -> NoDup added -> incl added N ->
+  List.length N < List.length added + S f ->
+  term_post N base added (fold_opt (visit_then casc obj p gof) ds (G, (added ++ base)%list)).
 Proof.
-  intros obj p f casc IHc. induction ds as [|d ds IH]; intros G HL.
-  - exists G. split; [reflexivity | lia].
-  - cbn [fold_opt]. unfold kill_then at 1.
-    pose proof (remove_full_length obj d p G) as L1.
-    destruct (IHc (remove_grants obj d p false G) d) as [G1 [E1 L2]]; [lia|].
-    rewrite E1. destruct (IH G1) as [G' [E' L3]]; [lia|]. exists G'. split; [exact E' | lia].
+  intros obj p gof N base f casc IHc. induction ds as [|d ds IH]; intros G added Hd HG Hnd Hin Hlen.
+  - exists G, added. cbn. repeat split; try assumption. lia.
+  - cbn [fold_opt]. unfold visit_then at 1. cbn [fst snd].
+    destruct (mem d (added ++ base)) eqn:Em.
+    + apply IH; try assumption. intros d' Hd'. apply Hd. right. exact Hd'.
+    + assert (Hnot : ~ In d added).
+      { intro C. assert (mem d (added ++ base) = true) by (apply mem_In, in_or_app; left; exact C). congruence. }
+      destruct (IHc (remove_grants obj d p gof G) (d :: added) d) as [G1 [added1 [E1 [HG1 [Hnd1 [Hin1 Hl1]]]]]].
+      * apply remove_grantees_in. exact HG.
+      * constructor; assumption.
+      * intros z [E|Hz]; [subst; apply Hd; left; reflexivity | apply Hin; exact Hz].
+      * cbn. lia.
+      * change ((d :: added) ++ base)%list with (d :: (added ++ base))%list in E1. rewrite E1.
+        destruct (IH G1 added1) as [G2 [added2 [E2 [HG2 [Hnd2 [Hin2 Hl2]]]]]]; try assumption.
+        -- intros d' Hd'. apply Hd. right. exact Hd'.
+        -- cbn in Hl1. lia.
+        -- exists G2, added2. repeat split; try assumption. cbn in Hl1. lia.
 Qed.
 
-Theorem cascade_terminates : forall obj p f G x,
-  List.length G < f -> exists G', revoke_cascade f obj p false G x = Some G' /\ List.length G' <= List.length G.
+Lemma cascade_terminates_aux : forall obj p gof N base fuel G added x,
+  grantees_in G N -> NoDup added -> incl added N -> List.length N < List.length added + fuel ->
+  term_post N base added (revoke_cascade fuel obj p gof G (added ++ base)%list x).
 Proof.
-  intros obj p. induction f as [|f IH]; intros G x HL; [lia|].
-  cbn [revoke_cascade].
-  destruct (map g_grantee (filter (granted_by obj x p) G)) as [|d ds] eqn:ED.
-  - exists G. split; [reflexivity | lia].
-  - cbn [fold_opt]. unfold kill_then at 1.
-    assert (Hd : In d (map g_grantee (filter (granted_by obj x p) G))) by (rewrite ED; left; reflexivity).
-    apply deps_spec in Hd as [g [Hg [Ho [Hp [Hx Hy]]]]].
-    assert (L1 : List.length (remove_grants obj d p false G) < List.length G).
-    { unfold remove_grants. eapply filter_length_lt; [exact Hg|]. apply negb_false_iff. apply matches_spec. tauto. }
-    destruct (IH (remove_grants obj d p false G) d) as [G1 [E1 L2]]; [lia|].
-    rewrite E1. destruct (fold_kill_terminates obj p f _ IH ds G1) as [G' [E' L3]]; [lia|].
-    exists G'. split; [exact E' | lia].
+  intros obj p gof N base. induction fuel as [|f IH]; intros G added x HG Hnd Hin Hlen.
+  - exfalso. pose proof (NoDup_incl_length Hnd Hin). lia.
+  - cbn [revoke_cascade]. apply (fold_visit_terminates obj p gof N base f _ IH); try assumption.
+    intros d Hd. apply in_map_iff in Hd as [g [E Hg]]. apply filter_In in Hg as [Hg _]. subst d. apply HG. exact Hg.
 Qed.
 
-Lemma revoke_fold_terminates : forall fuel obj casc prs G,
-  List.length G < fuel ->
-  exists G', fold_opt (revoke_one fuel obj false casc) prs G = Some G' /\ List.length G' <= List.length G.
+Theorem cascade_terminates : forall obj p gof N fuel G ge,
+  grantees_in G N -> List.length N < fuel ->
+  exists st, revoke_cascade fuel obj p gof G [ge] ge = Some st /\ grantees_in (fst st) N.
 Proof.
-  intros fuel obj casc. induction prs as [|[ge p] prs IH]; intros G HL.
-  - exists G. split; [reflexivity | lia].
-  - pose proof (remove_full_length obj ge p G) as L1.
+  intros obj p gof N fuel G ge HG Hl.
+  destruct (cascade_terminates_aux obj p gof N [ge] fuel G [] ge HG (NoDup_nil _) (incl_nil_l _)) as [G' [added' [E [HG' _]]]].
+  - cbn. lia.
+  - cbn [app] in E. exists (G', (added' ++ [ge])%list). split; [exact E | exact HG'].
+Qed.
+
+Lemma revoke_fold_terminates : forall fuel obj gof casc N prs G,
+  grantees_in G N -> List.length N < fuel ->
+  exists G', fold_opt (revoke_one fuel obj gof casc) prs G = Some G' /\ grantees_in G' N.
+Proof.
+  intros fuel obj gof casc N. induction prs as [|[ge p] prs IH]; intros G HG Hl.
+  - exists G. split; [reflexivity | exact HG].
+  - pose proof (remove_grantees_in obj ge p gof G N HG) as HG1.
     destruct casc; cbn [fold_opt revoke_one].
-    + destruct (IH (remove_grants obj ge p false G)) as [G' [E L]]; [lia|]. exists G'. split; [exact E | lia].
-    + unfold kill_then.
-      destruct (cascade_terminates obj p fuel (remove_grants obj ge p false G) ge) as [G1 [E1 L2]]; [lia|].
-      rewrite E1. destruct (IH G1) as [G' [E L]]; [lia|]. exists G'. split; [exact E | lia].
-    + destruct (IH (remove_grants obj ge p false G)) as [G' [E L]]; [lia|]. exists G'. split; [exact E | lia].
+    + apply IH; assumption.
+    + destruct (cascade_terminates obj p gof N fuel (remove_grants obj ge p gof G) ge HG1 Hl) as [st [E HGs]].
+      rewrite E. apply IH; assumption.
+    + apply IH; assumption.
 Qed.
 
-(** a REVOKE without GRANT OPTION FOR never overflows the stack (with the model's budget [cascade_fuel]) *)
-Theorem revoke_plain_never_crashes : forall s privs ot obj grantees casc,
-  snd (exec_revoke s false privs ot obj grantees casc) <> RCrash.
+(** no REVOKE - plain or GRANT OPTION FOR, with or without CASCADE, cyclic delegation graph or not - exhausts
+    the recursion budget: the walk visits every grantee at most once *)
+Theorem revoke_never_crashes : forall s gof privs ot obj grantees casc,
+  snd (exec_revoke s gof privs ot obj grantees casc) <> RCrash.
 Proof.
   intros. unfold exec_revoke.
   destruct (revoke_object_check s ot obj); [discriminate|].
   destruct (negb (all_roles_exist s grantees)); [discriminate|].
   destruct (_ && _); [discriminate|].
-  destruct (revoke_fold_terminates (cascade_fuel (st_grants s)) obj casc (pairs grantees (expand privs ot)) (st_grants s)) as [G' [E _]].
-  - unfold cascade_fuel. lia.
+  destruct (revoke_fold_terminates (cascade_fuel (st_grants s)) obj gof casc (map g_grantee (st_grants s))
+              (pairs grantees (expand privs ot)) (st_grants s)) as [G' [E _]].
+  - intros g Hg. apply in_map. exact Hg.
+  - unfold cascade_fuel. rewrite map_length. lia.
   - rewrite E. discriminate.
 Qed.
 
-(** more fuel never changes a result *)
-Lemma fold_opt_ext_some : forall (A B : Type) (f g : B -> A -> option B),
-  (forall b x b', f b x = Some b' -> g b x = Some b') ->
-  forall l b b', fold_opt f l b = Some b' -> fold_opt g l b = Some b'.
+Theorem step_never_crashes : forall s o, snd (step s o) <> RCrash.
 Proof.
-  intros A B f g H. induction l as [|x l IH]; intros b b' E; [exact E|].
-  cbn in *. destruct (f b x) as [b1|] eqn:E1; [|discriminate]. rewrite (H _ _ _ E1). apply IH. exact E.
+  intros s o. destruct o; cbn [step]; try discriminate.
+  - unfold exec_create_role. destruct (role_exists s r); discriminate.
+  - unfold exec_drop_role. destruct (role_exists s r); discriminate.
+  - unfold exec_grant. destruct (grant_object_check s privs ot obj); [|discriminate].
+    destruct (all_roles_exist s grantees); discriminate.
+  - apply revoke_never_crashes.
+  - cbn. destruct (check_privilege s obj (kind_priv k)); discriminate.
 Qed.
 
-Theorem cascade_fuel_mono : forall obj p gof f G x G',
-  revoke_cascade f obj p gof G x = Some G' -> revoke_cascade (S f) obj p gof G x = Some G'.
-Proof.
-  intros obj p gof. induction f as [|f IH]; intros G x G' H; [discriminate|].
-  cbn [revoke_cascade] in H. change (revoke_cascade (S (S f)) obj p gof G x) with
-    (fold_opt (kill_then (revoke_cascade (S f) obj p gof) obj p gof) (map g_grantee (filter (granted_by obj x p) G)) G).
-  eapply fold_opt_ext_some; [|exact H]. intros b d b' E. unfold kill_then in *. apply IH. exact E.
-Qed.
-
-(** * REVOKE GRANT OPTION FOR ... CASCADE on a delegation cycle never returns *)
+(** * delegation cycles *)
 Lemma edge_ekey : forall obj G p x y, edge obj G p x y <-> In (obj, x, y, p) (map ekey G).
 Proof.
   intros. rewrite in_map_iff. unfold edge, ekey. split.
@@ -851,76 +966,24 @@ Proof.
   - eapply reach_step; [exact IH|]. apply edge_ekey. rewrite <- E. apply edge_ekey. exact Ed.
 Qed.
 
-Lemma reach_first : forall obj G p x z, reach obj G p x z -> exists y, edge obj G p x y /\ (y = z \/ reach obj G p y z).
-Proof.
-  intros obj G p x z R. induction R as [y Ed | y z _ [w [Ew IH]] Ed].
-  - exists y. split; [exact Ed | left; reflexivity].
-  - exists w. split; [exact Ew|]. right. destruct IH as [IH|IH].
-    + subst w. apply reach_one. exact Ed.
-    + eapply reach_step; eassumption.
-Qed.
-
-Lemma fold_kill_none : forall obj p (casc : list grant -> string -> option (list grant)) y,
-  (forall G1 d G2, casc G1 d = Some G2 -> map ekey G2 = map ekey G1) ->
-  forall ds G, In y ds ->
-  (forall G'', map ekey G'' = map ekey G -> casc G'' y = None) ->
-  fold_opt (kill_then casc obj p true) ds G = None.
-Proof.
-  intros obj p casc y Hk. induction ds as [|d ds IH]; intros G Hin Hy; [contradiction|].
-  cbn [fold_opt]. destruct (kill_then casc obj p true G d) as [G1|] eqn:E1; [|reflexivity].
-  unfold kill_then in E1. destruct Hin as [Hd|Hin].
-  - subst d. rewrite Hy in E1; [discriminate | apply remove_option_ekeys].
-  - apply Hk in E1. apply IH; [exact Hin|]. intros G'' E. apply Hy. rewrite E, E1. apply remove_option_ekeys.
-Qed.
-
-Theorem cascade_option_cycle_diverges : forall obj p fuel G x,
-  reach obj G p x x -> revoke_cascade fuel obj p true G x = None.
-Proof.
-  intros obj p. induction fuel as [|f IH]; intros G x R; [reflexivity|].
-  cbn [revoke_cascade]. destruct (reach_first _ _ _ _ _ R) as [y [Ey Hy]].
-  assert (Ry : reach obj G p y y).
-  { destruct Hy as [Hy|Hy]; [subst y; exact R | eapply reach_step; eassumption]. }
-  eapply (fold_kill_none obj p _ y).
-  - intros G1 d G2. apply cascade_option_ekeys.
-  - apply deps_spec. exact Ey.
-  - intros G'' E. apply IH. eapply reach_ekeys; [symmetry; exact E | exact Ry].
-Qed.
-
-Lemma revoke_fold_none : forall fuel obj prs G ge p,
-  In (ge, p) prs -> reach obj G p ge ge ->
-  fold_opt (revoke_one fuel obj true CCascade) prs G = None.
-Proof.
-  intros fuel obj. induction prs as [|[ge' p'] prs IH]; intros G ge p Hin R; [contradiction|].
-  cbn [fold_opt revoke_one].
-  destruct (kill_then (revoke_cascade fuel obj p' true) obj p' true G ge') as [G1|] eqn:E1; [|reflexivity].
-  unfold kill_then in E1. destruct Hin as [Hd|Hin].
-  - inversion Hd; subst. rewrite cascade_option_cycle_diverges in E1; [discriminate|].
-    eapply reach_ekeys; [|exact R]. symmetry. apply remove_option_ekeys.
-  - apply cascade_option_ekeys in E1. eapply IH; [exact Hin|].
-    eapply reach_ekeys; [|exact R]. rewrite E1. symmetry. apply remove_option_ekeys.
-Qed.
-
-(** whatever stack budget is chosen: the statement that passes its checks ends in a stack overflow as soon
-    as one named grantee sits on a cycle of grants of one of the named privileges *)
-Theorem revoke_option_cascade_cycle_crashes : forall s privs ot obj grantees ge p,
-  revoke_object_check s ot obj = None -> all_roles_exist s grantees = true ->
-  In ge grantees -> In p (expand privs ot) -> reach obj (st_grants s) p ge ge ->
-  step s (ORevoke true privs ot obj grantees CCascade) = (s, RCrash).
-Proof.
-  intros s privs ot obj grantees ge p H1 H2 Hg Hp R. cbn [step]. unfold exec_revoke. rewrite H1, H2. cbn [negb andb].
-  rewrite (revoke_fold_none _ obj _ _ ge p); [reflexivity| |exact R]. apply in_pairs_pairs. tauto.
-Qed.
-
-(** the witness history of known.d: R1 grants to R2, R2 grants back to R1 *)
+(** the history that used to kill the process (R1 grants to R2, R2 grants back to R1, then
+    REVOKE GRANT OPTION FOR ... CASCADE): with the visited set it returns, and both grant options are gone *)
 Definition cycle_history : list op :=
   [ OCreateRole "R1"; OCreateRole "R2";
     OSetRole (Some "R1"); OGrant [PSelect None] OTable "A" ["R2"] true;
     OSetRole (Some "R2"); OGrant [PSelect None] OTable "A" ["R1"] true;
     ORevoke true [PSelect None] OTable "A" ["R1"] CCascade ].
 
-Theorem revoke_never_crashes_refuted :
-  exists s h, In RCrash (results s h).
-Proof. exists (init_state ["A"] ["public"]), cycle_history. vm_compute. tauto. Qed.
+Example cycle_history_returns :
+  results (init_state ["A"] ["public"]) cycle_history = [ROk; ROk; ROk; ROk; ROk; ROk; ROk] /\
+  map g_wgo (st_grants (exec (init_state ["A"] ["public"]) cycle_history)) = [false; false] /\
+  has_privilege (exec (init_state ["A"] ["public"]) cycle_history) "R1" "A" (PSelect None) = true.
+Proof. vm_compute. repeat split. Qed.
+
+(** the plain REVOKE ... CASCADE on the same cycle removes both grants *)
+Example cycle_history_plain_cascade :
+  st_grants (exec (init_state ["A"] ["public"]) (firstn 6 cycle_history ++ [ORevoke false [PSelect None] OTable "A" ["R1"] CCascade])) = [].
+Proof. vm_compute. reflexivity. Qed.
 
 (** * examples: the hypotheses of the theorems above are satisfiable by non-trivial inputs *)
 Definition ex_history : list op :=
@@ -1050,162 +1113,3 @@ Example default_revoke_leaves_dependents :
   has_privilege s' "R2" "T" (PSelect None) = true /\          (* granted by R1 *)
   snd (step s (ORevoke false [PSelect None] OTable "T" ["R1"] CRestrict)) = RErr EDependentPrivileges.
 Proof. vm_compute. repeat split. Qed.
-
-(** * REVOKE GRANT OPTION FOR ... CASCADE returns when no delegation cycle is reachable *)
-Lemma fold_kill_some : forall obj p (casc : list grant -> string -> option (list grant)),
-  (forall G1 d G2, casc G1 d = Some G2 -> map ekey G2 = map ekey G1) ->
-  forall ds G,
-  (forall d G'', In d ds -> map ekey G'' = map ekey G -> casc G'' d <> None) ->
-  fold_opt (kill_then casc obj p true) ds G <> None.
-Proof.
-  intros obj p casc Hk. induction ds as [|d ds IH]; intros G Hd; [discriminate|].
-  cbn [fold_opt]. unfold kill_then at 1.
-  destruct (casc (remove_grants obj d p true G) d) as [G1|] eqn:E1.
-  - apply IH. intros d' G'' Hin E. apply Hd; [right; exact Hin|].
-    rewrite E. rewrite (Hk _ _ _ E1). apply remove_option_ekeys.
-  - exfalso. apply (Hd d (remove_grants obj d p true G)); [left; reflexivity | apply remove_option_ekeys | exact E1].
-Qed.
-
-Lemma NoDup_incl_le : forall (l l' : list string), NoDup l -> incl l l' -> List.length l <= List.length l'.
-Proof. intros. apply NoDup_incl_length; assumption. Qed.
-
-Lemma cascade_option_acyclic_aux : forall obj p (nodes : list string) fuel G x (path : list string),
-  (forall a b, edge obj G p a b -> In b nodes) ->
-  In x nodes -> incl path nodes -> NoDup path -> ~ In x path ->
-  (forall z, In z path -> reach obj G p z x) ->
-  (forall z, z = x \/ reach obj G p x z -> ~ reach obj G p z z) ->
-  List.length nodes <= List.length path + fuel ->
-  revoke_cascade fuel obj p true G x <> None.
-Proof.
-  intros obj p nodes. induction fuel as [|f IH]; intros G x path Hn Hx Hp Hnd Hxp Hr Hac Hlen.
-  - exfalso.
-    assert (L : List.length (x :: path) <= List.length nodes).
-    { apply NoDup_incl_le; [constructor; assumption|]. intros z [E|Hz]; [subst; exact Hx | apply Hp; exact Hz]. }
-    cbn in L. lia.
-  - cbn [revoke_cascade]. apply fold_kill_some; [intros G1 d G2; apply cascade_option_ekeys|].
-    intros y G'' Hy E. apply deps_spec in Hy.
-    assert (Tr : forall a b, reach obj G p a b -> reach obj G'' p a b) by (intros a b; apply reach_ekeys; symmetry; exact E).
-    assert (Tr' : forall a b, reach obj G'' p a b -> reach obj G p a b) by (intros a b; apply reach_ekeys; exact E).
-    apply (IH G'' y (x :: path)).
-    + intros a b Hab. apply (Hn a b). apply edge_ekey. rewrite <- E. apply edge_ekey. exact Hab.
-    + eapply Hn. exact Hy.
-    + intros z [Ez|Hz]; [subst; exact Hx | apply Hp; exact Hz].
-    + constructor; assumption.
-    + intros [Ey|Hyp].
-      * subst y. apply (Hac x (or_introl eq_refl)). apply reach_one. exact Hy.
-      * apply (Hac y); [right; apply reach_one; exact Hy|].
-        eapply reach_step; [apply Hr; exact Hyp | exact Hy].
-    + intros z [Ez|Hz]; apply Tr.
-      * subst z. apply reach_one. exact Hy.
-      * eapply reach_step; [apply Hr; exact Hz | exact Hy].
-    + intros z Hz. intro C. apply Tr' in C. apply (Hac z); [|exact C]. right.
-      destruct Hz as [Ez|Hz]; [subst z; apply reach_one; exact Hy|].
-      eapply reach_cons; [exact Hy | apply Tr'; exact Hz].
-    + cbn. lia.
-Qed.
-
-(** with the model's stack budget (one frame per grant, plus one) *)
-Theorem cascade_option_acyclic_terminates : forall obj p G x,
-  (forall z, z = x \/ reach obj G p x z -> ~ reach obj G p z z) ->
-  revoke_cascade (cascade_fuel G) obj p true G x <> None.
-Proof.
-  intros obj p G x Hac.
-  apply (cascade_option_acyclic_aux obj p (x :: map g_grantee G) (cascade_fuel G) G x []).
-  - intros a b [g [Hg [_ [_ [_ Hb]]]]]. right. rewrite <- Hb. apply in_map. exact Hg.
-  - left. reflexivity.
-  - intros z [].
-  - constructor.
-  - intros [].
-  - intros z [].
-  - exact Hac.
-  - unfold cascade_fuel. cbn. rewrite map_length. lia.
-Qed.
-
-(** ... and never returns when one is (generalises [cascade_option_cycle_diverges] from "on a cycle" to
-    "reaches a cycle") *)
-Theorem cascade_option_cycle_reachable_diverges : forall obj p fuel G x z,
-  z = x \/ reach obj G p x z -> reach obj G p z z -> revoke_cascade fuel obj p true G x = None.
-Proof.
-  intros obj p. induction fuel as [|f IH]; intros G x z Hz C; [reflexivity|].
-  destruct Hz as [Ez|Hz]; [subst z; apply cascade_option_cycle_diverges; exact C|].
-  cbn [revoke_cascade]. destruct (reach_first _ _ _ _ _ Hz) as [y [Ey Hy]].
-  eapply (fold_kill_none obj p _ y).
-  - intros G1 d G2. apply cascade_option_ekeys.
-  - apply deps_spec. exact Ey.
-  - intros G'' E. apply (IH G'' y z).
-    + destruct Hy as [Hy|Hy]; [left; symmetry; exact Hy | right; eapply reach_ekeys; [symmetry; exact E | exact Hy]].
-    + eapply reach_ekeys; [symmetry; exact E | exact C].
-Qed.
-
-Lemma ekeys_length : forall G H, map ekey G = map ekey H -> List.length G = List.length H.
-Proof. intros G H E. rewrite <- (map_length ekey G), <- (map_length ekey H), E. reflexivity. Qed.
-
-(** the whole statement: REVOKE GRANT OPTION FOR ... CASCADE returns when no named (grantee, privilege) pair
-    reaches a delegation cycle, and overflows the stack as soon as one does *)
-Lemma revoke_fold_option_some : forall fuel obj prs G,
-  (forall ge p G'', In (ge, p) prs -> map ekey G'' = map ekey G -> revoke_cascade fuel obj p true G'' ge <> None) ->
-  fold_opt (revoke_one fuel obj true CCascade) prs G <> None.
-Proof.
-  intros fuel obj. induction prs as [|[ge p] prs IH]; intros G H; [discriminate|].
-  cbn [fold_opt revoke_one]. unfold kill_then.
-  destruct (revoke_cascade fuel obj p true (remove_grants obj ge p true G) ge) as [G1|] eqn:E1.
-  - apply IH. intros ge' p' G'' Hin E. apply H; [right; exact Hin|].
-    rewrite E. rewrite (cascade_option_ekeys _ _ _ _ _ _ E1). apply remove_option_ekeys.
-  - exfalso. apply (H ge p (remove_grants obj ge p true G)); [left; reflexivity | apply remove_option_ekeys | exact E1].
-Qed.
-
-Theorem revoke_option_acyclic_never_crashes : forall s privs ot obj grantees,
-  (forall ge p z, In ge grantees -> In p (expand privs ot) ->
-     z = ge \/ reach obj (st_grants s) p ge z -> ~ reach obj (st_grants s) p z z) ->
-  snd (exec_revoke s true privs ot obj grantees CCascade) <> RCrash.
-Proof.
-  intros s privs ot obj grantees Hac. unfold exec_revoke.
-  destruct (revoke_object_check s ot obj); [discriminate|].
-  destruct (negb (all_roles_exist s grantees)); [discriminate|].
-  cbn [andb].
-  destruct (fold_opt _ _ _) as [G'|] eqn:EF; [discriminate|]. exfalso.
-  revert EF. apply revoke_fold_option_some. intros ge p G'' Hin E.
-  apply in_pairs_pairs in Hin as [Hg Hp].
-  assert (EL : cascade_fuel (st_grants s) = cascade_fuel G'').
-  { unfold cascade_fuel. rewrite (ekeys_length _ _ E). reflexivity. }
-  rewrite EL. apply cascade_option_acyclic_terminates. intros z Hz C.
-  apply (Hac ge p z Hg Hp).
-  - destruct Hz as [Hz|Hz]; [left; exact Hz | right; eapply reach_ekeys; [exact E | exact Hz]].
-  - eapply reach_ekeys; [exact E | exact C].
-Qed.
-
-Lemma revoke_fold_none_reach : forall fuel obj prs G ge p z,
-  In (ge, p) prs -> z = ge \/ reach obj G p ge z -> reach obj G p z z ->
-  fold_opt (revoke_one fuel obj true CCascade) prs G = None.
-Proof.
-  intros fuel obj. induction prs as [|[ge' p'] prs IH]; intros G ge p z Hin Hz C; [contradiction|].
-  cbn [fold_opt revoke_one].
-  destruct (kill_then (revoke_cascade fuel obj p' true) obj p' true G ge') as [G1|] eqn:E1; [|reflexivity].
-  unfold kill_then in E1.
-  assert (Tr : forall G'' a b, map ekey G'' = map ekey G -> reach obj G p a b -> reach obj G'' p a b)
-    by (intros G'' a b E; apply reach_ekeys; symmetry; exact E).
-  destruct Hin as [Hd|Hin].
-  - inversion Hd; subst. rewrite (cascade_option_cycle_reachable_diverges obj p fuel _ ge z) in E1; [discriminate| |].
-    + destruct Hz as [Hz|Hz]; [left; exact Hz | right; apply Tr; [apply remove_option_ekeys | exact Hz]].
-    + apply Tr; [apply remove_option_ekeys | exact C].
-  - apply cascade_option_ekeys in E1.
-    assert (E : map ekey G1 = map ekey G) by (rewrite E1; apply remove_option_ekeys).
-    apply (IH G1 ge p z Hin).
-    + destruct Hz as [Hz|Hz]; [left; exact Hz | right; apply Tr; assumption].
-    + apply Tr; assumption.
-Qed.
-
-Theorem revoke_option_cascade_reachable_cycle_crashes : forall s privs ot obj grantees ge p z,
-  revoke_object_check s ot obj = None -> all_roles_exist s grantees = true ->
-  In ge grantees -> In p (expand privs ot) ->
-  z = ge \/ reach obj (st_grants s) p ge z -> reach obj (st_grants s) p z z ->
-  step s (ORevoke true privs ot obj grantees CCascade) = (s, RCrash).
-Proof.
-  intros s privs ot obj grantees ge p z H1 H2 Hg Hp Hz C. cbn [step]. unfold exec_revoke. rewrite H1, H2. cbn [negb andb].
-  rewrite (revoke_fold_none_reach _ obj _ _ ge p z); [reflexivity| |exact Hz|exact C]. apply in_pairs_pairs. tauto.
-Qed.
-
-Example ex_acyclic_option_cascade :
-  let s := exec (init_state ["T"] ["public"]) (firstn 8 ex_history) in
-  snd (step s (ORevoke true [PSelect None] OTable "T" ["R1"] CCascade)) = ROk.
-Proof. vm_compute. reflexivity. Qed.
